@@ -16,8 +16,15 @@ sys.path.insert(0, os.path.dirname(HERE))
 
 # property -> list of (module, function) concrete checks
 REGISTRY = {
-    "C02": [("harness.c_itertools", "check_exactly_once")],
-    "C14": [("harness.c_itertools", "check_laziness")],
+    "C02": [("harness.c_itertools", "check_exactly_once"),
+            ("harness.c_iteration", "check_exactly_once_interfaces")],
+    "C03": [("harness.c_iteration", "check_order")],
+    "C07": [("harness.c_iteration", "check_damage")],
+    "C12": [("harness.c_iteration", "check_selection")],
+    "C13": [("harness.c_lazy_pool", "check_pool")],
+    "C14": [("harness.c_itertools", "check_laziness"),
+            ("harness.c_iteration", "check_lazy")],
+    "C19": [("harness.c_iteration", "check_repeat")],
 }
 
 
